@@ -12,9 +12,12 @@ for d in sorted(glob.glob('/verif/seeded/*')):
     title = m.get('title', '').split(' - ', 1)[-1].replace('|', '/')
     caught = ', '.join(f"{r} (check {p})" if p != m['property'] else r for p, r in det.items()) or '**not caught** - ' + m.get('why_missed', 'see text')
     hist = m.get('history', '')
+    if isinstance(hist, list):
+        hist = ' / '.join(hist)
+    as_stood = (not hist) or hist.startswith(('reported by the rule set as it stood', 'reported by C0', 'reported by C1', 'not reported under')) and 'now' not in hist
     if not det:
         miss += 1
-    elif hist:
+    elif not as_stood:
         later += 1
     else:
         first += 1
